@@ -30,7 +30,7 @@ func init() { core.Register(c19{}) }
 
 func (c19) ID() string { return "C19" }
 func (c19) Rule() string {
-	return "plans: <= 12 signature pushes over <= 3 subject artifacts (distinct envelopes, both media types, 100 B - 2 MiB, annotations), interleaved with foreign referrers (other artifact types, legacy artifact manifests of notation and of other types, subjects differing in exactly one field), hand-built hostile notation referrers (0 or 2 layers, declared blob size above the cap, 5 MiB manifest), failures injected into the two-step push (blob ok, manifest fails; config push fails), fetch failures, re-opening of the on-disk layout, listing order rotations, the subject presented in the forms callers hold it (plain / index-entry annotations / empty map / artifact type); stores: oras oci.Store on tmpfs or memory.Store behind the order-fixing, fault-injecting wrapper. One plan in ten is the concurrent variant: 2-4 clients, each with its own repository client over one shared registry, push distinct signatures for the same and for different subjects under tape-driven interleaving of their registry calls. non-trivial: a listing took place with at least two referrers of any kind on some subject, or after a failed push / re-open; distinct: hash of (operations, faults, listing results)"
+	return "plans: <= 12 signature pushes over <= 3 subject artifacts (distinct envelopes, both media types, 100 B - 2 MiB, annotations), interleaved with foreign referrers (other artifact types, legacy artifact manifests of notation and of other types, subjects differing in exactly one field), hand-built hostile notation referrers (0 or 2 layers, the blob list under the other manifest kind's member name, declared blob size above the cap, 5 MiB manifest), failures injected into the two-step push (blob ok, manifest fails; config push fails), fetch failures, re-opening of the on-disk layout, listing order rotations, the subject presented in the forms callers hold it (plain / index-entry annotations / empty map / artifact type); stores: oras oci.Store on tmpfs or memory.Store behind the order-fixing, fault-injecting wrapper. One plan in ten is the concurrent variant: 2-4 clients, each with its own repository client over one shared registry, push distinct signatures for the same and for different subjects under tape-driven interleaving of their registry calls. non-trivial: a listing took place with at least two referrers of any kind on some subject, or after a failed push / re-open; distinct: hash of (operations, faults, listing results)"
 }
 func (c19) Components() map[string]string {
 	return map[string]string{
@@ -66,7 +66,7 @@ func (c19) Gen(r *rand.Rand, tier string, idx int) *core.Plan {
 		case x < 12:
 			p.Ops = append(p.Ops, core.Op{Kind: "foreign", I: []int64{s, int64(r.IntN(8))}})
 		case x < 13:
-			p.Ops = append(p.Ops, core.Op{Kind: "hostile", I: []int64{s, int64(r.IntN(6))}})
+			p.Ops = append(p.Ops, core.Op{Kind: "hostile", I: []int64{s, int64(r.IntN(8))}})
 		case x < 14:
 			p.Ops = append(p.Ops, core.Op{Kind: "legacy", I: []int64{s, int64(r.IntN(8)), int64(r.IntN(2))}})
 		case x < 15:
@@ -341,6 +341,30 @@ func (l c19) Exec(env *core.Env) *core.Result {
 				case 5: // a legacy artifact manifest of notation type with "blobs": []
 					if d, err := world.PushLegacyArtifact(ctx, inner, registry.ArtifactTypeNotation, []ocispec.Descriptor{}, &subj, map[string]string{"hostile": fmt.Sprint(len(trace))}); err == nil {
 						hostile[s][d.Digest] = "empty blob list (legacy manifest)"
+					}
+					sim.Abstract(fmt.Sprint("hostile", s, op.Int(1)))
+					continue
+				case 6, 7:
+					// the blob list sits under the member name of the OTHER manifest kind: an image manifest with
+					// "layers": [] and a "blobs" member, a legacy artifact manifest without "blobs" and with "layers".
+					// Either has no signature blob; the blob named is the first envelope pushed for another subject
+					other := l1
+					for o := range subjects {
+						if o != s && len(model[o]) > 0 {
+							other = ocispec.Descriptor{MediaType: model[o][0].mediaType, Digest: model[o][0].sum, Size: int64(model[o][0].size)}
+						}
+					}
+					doc := map[string]any{"schemaVersion": 2, "mediaType": ocispec.MediaTypeImageManifest, "config": cfg, "layers": []ocispec.Descriptor{}, "blobs": []ocispec.Descriptor{other},
+						"subject": subj, "annotations": map[string]string{"hostile": fmt.Sprint(len(trace))}}
+					why = "no layer, but a blobs member"
+					if op.Int(1) == 7 {
+						doc = map[string]any{"mediaType": world.LegacyArtifactManifest, "artifactType": registry.ArtifactTypeNotation, "layers": []ocispec.Descriptor{other},
+							"subject": subj, "annotations": map[string]string{"hostile": fmt.Sprint(len(trace))}}
+						why = "no blob, but a layers member (legacy manifest)"
+					}
+					b, _ := json.Marshal(doc)
+					if d, err := world.PushBlob(ctx, inner, doc["mediaType"].(string), b); err == nil {
+						hostile[s][d.Digest] = why
 					}
 					sim.Abstract(fmt.Sprint("hostile", s, op.Int(1)))
 					continue
